@@ -7,10 +7,21 @@ Streams (every real call is mirrored by one request to the compiled Lean model):
   struct    Swap / Copy / Discard of every small width: wiring and values  cnet, cswap, ccopy, cdiscard
   natural   naturality / comonoid laws, both sides on the real code        ccall
   mk        ill-typed constructor requests                                 ccall
+  history   ONE diagram object (typed wire values: 1 / 1.0 / True, 0.0 / -0.0, None, strings,
+            lists, dicts, sets; boxes built through every constructor route, the same box object
+            several times in a diagram, 0-input states, counters, boxes returning fresh lists)
+            called several times in a row on equal-but-distinguishable inputs, the previous
+            result mutated in between; every call against the oracle and the model   ccall, cbox
+  function  cartesian.Function objects composed with >> / @ / Function.id  ccall
+
+The model has no history (a call is a function of its inputs) and wire values are typed tokens
+(`show`): the comparison is type-sensitive, never Python's `==`.
 
 The oracle (`splice`) is written from the property statement: feed the inputs through the boxes
 in order, each box applied to the wires at its offset, its outputs spliced back in place.
 """
+import copy
+import math
 import random
 
 from common import Driver, Report, lean_obligations, err_class
@@ -46,22 +57,96 @@ def fail(*xs):
     raise ValueError("fail")
 
 
+# The model's arithmetic (PyVal.add / rmul) covers ints, bools and integer-valued floats below
+# 2^53.  The arithmetic pool functions raise this flag when they see or produce anything else that
+# Python computes differently (sequence repetition `2 * "a"`, -0.0, 1.5, inf): such a call is
+# compared with the oracle only.
+TAINT = [False]
+TYPES = [int, float, bool, str, bytes, type(None), list, dict, set, frozenset, tuple]
+
+
+def nice_float(v):
+    return math.isfinite(v) and v == int(v) and abs(v) < 2 ** 53 \
+        and not (v == 0 and math.copysign(1.0, v) < 0)
+
+
+def outside_arith(v):
+    if isinstance(v, tuple):
+        return any(outside_arith(x) for x in v)
+    if type(v) is float:
+        return not nice_float(v)
+    return isinstance(v, (str, bytes, list))
+
+
+def arith(fn):
+    def f(*xs):
+        if any(outside_arith(x) for x in xs):
+            TAINT[0] = True
+        out = fn(*xs)
+        if outside_arith(out):
+            TAINT[0] = True
+        return out
+    return f
+
+
+class Counter:
+    """An impure box: every evaluation hands out the next numbers (n of them)."""
+    __name__ = "counter"
+
+    def __init__(self, m, n):
+        self.m, self.n, self.calls = m, n, 0
+
+    def __call__(self, *xs):
+        if len(xs) != self.m:
+            raise TypeError("arity")
+        self.calls += 1
+        out = tuple(100 * self.calls + j for j in range(self.n))
+        return out[0] if self.n == 1 else out
+
+
 def py_prim(tok):
     """The Python function behind a pool token (the Lean side is `Prim.sem`)."""
     p = tok.split(":")
+    if p[0] in ("add", "scale", "aff"):
+        return arith(py_arith(p))
+    if p[0] == "tyc":
+        i = int(p[2])
+        return fixed(int(p[1]), lambda xs: TYPES.index(type(xs[i])) if type(xs[i]) in TYPES else 11)
+    if p[0] == "pick":
+        idx = [int(i) for i in p[2].split(".") if i]
+        return fixed(int(p[1]), lambda xs: tuple(xs[i] for i in idx))
+    if p[0] == "const":
+        v = parse_token(p[2])
+        return fixed(int(p[1]), lambda xs: v)
+    # no model counterpart (token None on the box): fresh mutable results, impure boxes
+    if p[0] == "lst":
+        return fixed(int(p[1]), lambda xs: list(xs))
+    if p[0] == "dct":
+        return fixed(int(p[1]), lambda xs: {"args": list(xs)})
+    if p[0] == "ctr":
+        return Counter(int(p[1]), int(p[2]))
+    return py_generic(p, tok)
+
+
+def py_arith(p):
     if p[0] == "add":
         return lambda x, y: x + y
+    if p[0] == "scale":
+        k = int(p[1])
+        return lambda x: k * x
+    return affine(int(p[1]), int(p[2]), int(p[3]), p[4] == "1")
+
+
+UNMODELLED = ("lst", "dct", "ctr")
+
+
+def py_generic(p, tok):
     if p[0] == "swap":
         return lambda x, y: (y, x)
     if p[0] == "copy":
         return lambda *x: x + x
     if p[0] == "discard":
         return lambda *x: ()
-    if p[0] == "scale":
-        k = int(p[1])
-        return lambda x: k * x
-    if p[0] == "aff":
-        return affine(int(p[1]), int(p[2]), int(p[3]), p[4] == "1")
     if p[0] == "proj":
         i = int(p[2])
         return fixed(int(p[1]), lambda xs: xs[i])
@@ -192,12 +277,98 @@ def name_collisions(boxes):
 
 # --------------------------------------------------------------------------- canonical forms
 
+# Wire values other than ints, bools and integer floats: fixed tables, entry k of table L is the
+# model's token `L<k>` (Ty.floatx, none, str, bytes, list, dict, set, frozenset).  Templates are
+# never handed out themselves (`fresh`): a call gets its own copies of lists, dicts and sets.
+TABLE = {
+    "x": [-0.0, 1.5, -2.5, float("inf"), 1e300],
+    "N": [None],
+    "s": ["a", "", "1", "1.0", "True"],
+    "y": [b"a", b""],
+    "l": [[1, 2], [], [1.0, 2], [[1], (2,)], [None], [True, 2]],
+    "d": [{"k": 1}, {}, {1: "x"}, {1.0: "x"}],
+    "e": [{1, 2}, set(), {1.0, 2}],
+    "z": [frozenset({1}), frozenset(), frozenset({1.0}), frozenset({True})],
+}
+TABLE_INDEX = {(type(v).__name__, repr(v)): "%s%d" % (letter, k)
+               for letter, vs in TABLE.items() for k, v in enumerate(vs)}
+# values Python's == / hash identify although they differ (type, sign of zero, contents)
+CLUSTERS = [[1, 1.0, True], [0, 0.0, -0.0, False], [2, 2.0], [-1, -1.0], [3, 3.0], [7, 7.0],
+            [42, 42.0], [frozenset({1}), frozenset({1.0}), frozenset({True})],
+            [[1, 2], [1.0, 2], [True, 2]], [{1: "x"}, {1.0: "x"}], [{1, 2}, {1.0, 2}]]
+
+
+def fresh(v):
+    return copy.deepcopy(v)
+
+
 def show(v):
+    """Canonical, type-sensitive form of a value (the model's token when there is one)."""
     if isinstance(v, tuple):
         return "(" + ",".join(show(x) for x in v) + ")"
-    if isinstance(v, int) and not isinstance(v, bool):
+    t = type(v)
+    if t is bool:
+        return "b%d" % v
+    if t is int:
         return str(v)
-    return "?" + type(v).__name__
+    if t is float and nice_float(v):
+        return "f%d" % int(v)
+    try:
+        key = (t.__name__, repr(v))
+    except Exception as exc:
+        key = (t.__name__, "<repr raised %s>" % type(exc).__name__)
+    return TABLE_INDEX.get(key) or ("?%s:%s" % key).replace(" ", "")
+
+
+def parse_token(tok):
+    """The Python value of a typed token (a fresh copy)."""
+    if tok[0] == "f":
+        return float(int(tok[1:]))
+    if tok[0] == "b":
+        return bool(int(tok[1:]))
+    if tok[0] in TABLE:
+        return fresh(TABLE[tok[0]][int(tok[1:])])
+    return int(tok)
+
+
+def has_token(v):
+    return "?" not in show(v)
+
+
+def siblings(v):
+    """Values that compare (and hash) equal to v without being v: other type, other sign of zero."""
+    sv = show(v)
+    for cl in CLUSTERS:
+        if sv in [show(c) for c in cl]:
+            return [fresh(c) for c in cl if show(c) != sv]
+    if type(v) is int and abs(v) < 2 ** 40:
+        return [float(v)]
+    if type(v) is float and nice_float(v):
+        return [int(v)]
+    return []
+
+
+def mutable_parts(v, depth=2):
+    if isinstance(v, tuple):
+        return [p for x in v for p in mutable_parts(x, depth)]
+    if isinstance(v, list):
+        return [v] + ([p for x in v for p in mutable_parts(x, depth - 1)] if depth else [])
+    if isinstance(v, dict):
+        return [v] + ([p for x in v.values() for p in mutable_parts(x, depth - 1)] if depth else [])
+    return [v] if isinstance(v, set) else []
+
+
+def mutate(v):
+    """What a caller may do with a result that belongs to it; returns the number of objects changed."""
+    parts = mutable_parts(v)
+    for p in parts:
+        if isinstance(p, list):
+            p.append("mine")
+        elif isinstance(p, dict):
+            p["mine"] = 1
+        else:
+            p.add("mine")
+    return len(parts)
 
 
 def answer(fn):
@@ -362,6 +533,137 @@ def build_ops(rng, dom, layers):
     return d
 
 
+# --------------------------------------------------------------------------- typed generator
+
+ROUTES = ["Box", "Box_kw", "Box_data", "disco", "disco_name", "disco_pos", "disco_kw", "decorator",
+          "Function"]
+NEED_NAME = ("disco", "disco_kw")     # these read the function's __name__
+
+
+def route_box(route, name, m, n, given):
+    """Every public way of turning a Python callable into a cartesian box."""
+    from discopy import cartesian
+    if route == "Box":
+        return cartesian.Box(name, m, n, given)
+    if route == "Box_kw":
+        return cartesian.Box(name=name, dom=m, cod=n, function=given)
+    if route == "Box_data":
+        return cartesian.Box(name, m, n, given, data={"note": [m, n]})   # no strings: cat.Box recurses on them
+    if route == "disco":
+        return cartesian.disco(m, n)(given)
+    if route == "disco_name":
+        return cartesian.disco(m, n, name=name)(given)
+    if route == "disco_pos":
+        return cartesian.disco(m, n, name)(given)
+    if route == "disco_kw":
+        return cartesian.disco(cod=n, dom=m)(given)
+    if route == "decorator":
+        @cartesian.disco(m, n)
+        def boxed(*xs):
+            return given(*xs)
+        return boxed
+    if route == "Function":          # a cartesian.Function object as the box's function
+        return cartesian.Box(name, m, n, cartesian.Function(m, n, given))
+    raise KeyError(route)
+
+
+class TGen(Gen):
+    """Typed wire values (`mode` numeric: ints / floats / bools that compare equal; mixed: also
+    None, strings, bytes, lists, dicts, sets, other floats), boxes through every constructor
+    route, the same box object used several times, states, counters, fresh mutable results."""
+
+    def __init__(self, rng, max_width, max_depth, mode, rep):
+        super().__init__(rng, max_width, max_depth)
+        self.mode, self.rep, self.made = mode, rep, []
+
+    def value(self):
+        r = self.rng
+        if self.mode == "numeric" or r.random() < 0.4:
+            if r.random() < 0.65:
+                return fresh(r.choice(r.choice(CLUSTERS[:7])))
+            n = r.randint(-9, 99)
+            return r.choice([n, n, float(n)])
+        return fresh(r.choice(TABLE[r.choice(sorted(TABLE))]))
+
+    def immutable(self):
+        r = self.rng
+        return fresh(r.choice([1, 1.0, True, 0, 0.0, -0.0, False, 2.0, 7, None, "a", "", b"a", 1.5,
+                               frozenset({1}), frozenset({1.0}), r.randint(-9, 99)]))
+
+    def inputs(self, n):
+        return tuple(self.value() for _ in range(n))
+
+    def variant(self, xs):
+        """Equal-but-distinguishable inputs: each value replaced, more often than not, by another
+        member of its ==-class (1 -> 1.0 -> True, 0.0 -> -0.0, [1, 2] -> [1.0, 2])."""
+        r, out = self.rng, []
+        for x in xs:
+            sib = siblings(x)
+            out.append(r.choice(sib) if sib and r.random() < 0.7 else fresh(x))
+        return tuple(out)
+
+    def token(self, m, n, flavour="clean"):
+        r = self.rng
+        k = r.random()
+        if k < 0.15:                                   # no model counterpart
+            opts = ["ctr:%d:%d" % (m, n)]
+            if n == 1:
+                opts += ["lst:%d" % m, "lst:%d" % m, "dct:%d" % m]
+            return r.choice(opts)
+        if k < 0.33:                                   # arithmetic, identities, the library's boxes
+            return Gen.token(self, m, n, "clean")
+        if n == 1 and k < 0.45:                        # states (m == 0) and constants
+            return "const:%d:%s" % (m, show(self.immutable()))
+        if n == 1 and m >= 1 and k < 0.80:
+            return r.choice(["proj:%d:%d", "tyc:%d:%d", "tyc:%d:%d"]) % (m, r.randrange(m))
+        if m >= 1 or n == 0:                           # hand the arguments back as they are
+            return "pick:%d:%s" % (m, ".".join(str(r.randrange(m)) for _ in range(n)))
+        if n == 1:
+            return "const:0:%s" % show(self.immutable())
+        return "aff:0:%d:%d:0" % (n, r.randint(-5, 5))
+
+    def arities(self, width):
+        m, n = Gen.arities(self, width)
+        if self.rng.random() < 0.3 and width - m + 1 <= self.W:
+            n = 1                                      # one output: observers, lists, states
+        return m, n
+
+    def box(self, tok, m, n, clean=True):
+        from discopy import cartesian
+        r, kind = self.rng, tok.split(":")[0]
+        if kind == "ident":
+            fn, given = identity(m), cartesian.Id(m)
+        elif kind == "ctr":                            # two counters in the same state: one for the
+            fn, given = py_prim(tok), py_prim(tok)     # oracle, one for the library
+        else:
+            fn = given = py_prim(tok)
+        routes = [x for x in ROUTES if hasattr(given, "__name__") or x not in NEED_NAME]
+        route = r.choice(routes)
+        box = route_box(route, r.choice(SHARED_NAMES + [tok, tok]), m, n, given)
+        tag(box, None if kind in UNMODELLED else tok, fn)
+        box._c19given, box._c19route = given, route
+        self.rep.count("route:" + route)
+        self.rep.count("typedpool:" + kind)
+        return box
+
+    def layers(self, dom, depth, flavour="clean"):
+        r, width, out = self.rng, dom, []
+        for _ in range(depth):
+            fits = [b for b in self.made
+                    if len(b.dom) <= width and width - len(b.dom) + len(b.cod) <= self.W]
+            if fits and r.random() < 0.35:             # the same box OBJECT once more
+                b = r.choice(fits)
+                self.rep.count("history:box_object_used_again")
+            else:
+                m, n = self.arities(width)
+                b = self.box(self.token(m, n), m, n)
+                self.made.append(b)
+            m, n = len(b.dom), len(b.cod)
+            out.append((b, r.randint(0, width - m)))
+            width = width - m + n
+        return out, width
+
+
 # --------------------------------------------------------------------------- the check
 
 class Cases:
@@ -384,33 +686,56 @@ class Cases:
         self.items = []
 
 
-def check_call(rep, cases, d, xs, how, flavour, stream="call"):
+def check_call(rep, cases, d, xs, how, flavour, stream="call", history=None, out=None):
     """Real call, model call (when every box has a model token), oracle; returns the real answer."""
-    boxes, offsets = list(d.boxes), list(d.offsets)
-    real = answer(lambda: d(*xs))
-    meta = dict(built=how, flavour=flavour, diagram=safe_repr(d), inputs=repr(xs),
+    return check_callable(rep, cases, lambda *vals: d(*vals), len(d.dom), len(d.cod),
+                          list(d.boxes), list(d.offsets), xs, how, flavour, stream,
+                          safe_repr(d), history, out)
+
+
+def check_callable(rep, cases, call, dom, cod, boxes, offsets, xs, how, flavour, stream, descr,
+                   history=None, out=None):
+    """`call(*xs)` on the real code against the model (request built from dom/cod/boxes/offsets)
+    and the oracle.  history: what was done to the same object before this call (replay needs it);
+    out: receives the raw result, which belongs to the caller."""
+    has_model = all(tok_of(b) is not None for b in boxes) and all(has_token(x) for x in xs)
+    line = ser_request(dom, cod, boxes, offsets, xs) if has_model else None
+    meta = dict(built=how, flavour=flavour, diagram=descr, inputs=repr(xs), input_tokens=show(tuple(xs)),
                 tokens=" ".join(str(tok_of(b)) for b in boxes)[:300])
-    modelled = all(tok_of(b) is not None for b in boxes)
+    if any(hasattr(b, "_c19route") for b in boxes):
+        meta["routes"] = " ".join(getattr(b, "_c19route", "-") for b in boxes)
+        meta["same_box_object_twice"] = len({id(b) for b in boxes}) < len(boxes)
+    if history is not None:
+        meta["earlier_on_this_object"] = list(history)
+    xs_oracle = fresh(tuple(xs))      # results of the real call may alias (and change) its inputs
+    raw = []
+    real = answer(lambda: (raw.append(call(*xs)), raw[0])[1])
+    if out is not None:
+        out[:] = raw
     nontrivial = len(boxes) >= 2 and real.startswith("ok")
     if name_collisions(boxes):
         rep.count("names:same_name_and_arity_different_function")
     if any(b._c19falsy for b in boxes):
         rep.count("functions:falsy_callable_in_diagram")
-    if modelled:
-        cases.add(stream, "ccall " + ser_diagram_call(d, xs), real, meta, nontrivial=nontrivial)
-    else:
-        rep.case("oracle-only %s %s %r" % (stream, meta["diagram"], xs), nontrivial)
-        rep.count("stream:%s(oracle only)" % stream)
     # the oracle: independent interpreter of the statement, on the real diagram's own fields
+    TAINT[0] = False
     try:
-        wires, in_scope = splice(len(d.dom), boxes, offsets, xs)
+        wires, in_scope = splice(dom, boxes, offsets, xs_oracle)
         want = "ok " + show(pack_result(wires))
         run_line = "ok " + show(tuple(wires))
     except Exception as exc:
         want, in_scope = "err " + err_class(exc), getattr(exc, "in_scope", True)
         run_line = want
+    modelled = has_model
+    if modelled and TAINT[0]:
+        modelled = False
+        rep.count("typed:arithmetic_outside_model(oracle only)")
     if modelled:
-        cases.add("run", "crun " + ser_diagram_call(d, xs), run_line, meta)
+        cases.add(stream, "ccall " + line, real, meta, nontrivial=nontrivial)
+        cases.add("run", "crun " + line, run_line, meta)
+    else:
+        rep.case("oracle-only %s %s %r" % (stream, descr, meta["inputs"]), nontrivial)
+        rep.count("stream:%s(oracle only)" % stream)
     rep.count("scope:" + ("in" if in_scope else "out(%s)" % flavour))
     if in_scope and real != want:
         rep.fail("call_ne_splice:" + flavour, meta,
@@ -420,21 +745,29 @@ def check_call(rep, cases, d, xs, how, flavour, stream="call"):
     return real
 
 
-def check_box_alone(rep, cases, b, bx):
-    """A Box called directly (the functor's Box branch): model when it has a token, oracle always."""
+def check_box_alone(rep, cases, b, bx, history=None, out=None):
+    """A Box called directly (the functor's Box branch): model when it has a token, oracle always.
+    The comparison is on canonical forms: type-sensitive (1 is not 1.0 is not True)."""
     got = []
+    where = dict(box=b.name, token=str(tok_of(b)), inputs=repr(bx), input_tokens=show(tuple(bx)),
+                 route=getattr(b, "_c19route", "-"))
+    if history is not None:
+        where["earlier_on_this_object"] = list(history)
+    bx_oracle = fresh(tuple(bx))
     breal = answer(lambda: (got.append(b(*bx)), got[0])[1])
-    where = dict(box=b.name, token=str(tok_of(b)), inputs=repr(bx))
-    if tok_of(b) is not None:
+    if out is not None:
+        out[:] = got
+    TAINT[0] = False
+    try:
+        bw, ok = splice(len(b.dom), [b], [0], bx_oracle)
+        good = bool(got) and show(tuple(as_wires(got[0]))) == show(tuple(bw))
+    except Exception as exc:
+        ok, good = getattr(exc, "in_scope", True), breal == "err " + err_class(exc)
+    if tok_of(b) is not None and not TAINT[0] and all(has_token(x) for x in bx):
         cases.add("box", "cbox %s %d %d %d %s" % (
             tok_of(b), len(b.dom), len(b.cod), len(bx), " ".join(show(x) for x in bx)), breal, where)
     else:
-        rep.case("oracle-only box %s %r" % (b.name, bx), False)
-    try:
-        bw, ok = splice(len(b.dom), [b], [0], bx)
-        good = bool(got) and as_wires(got[0]) == bw
-    except Exception as exc:
-        ok, good = getattr(exc, "in_scope", True), breal == "err " + err_class(exc)
+        rep.case("oracle-only box %s %r" % (b.name, where["inputs"]), False)
     if ok and not good:
         rep.fail("box_call_ne_splice", where, "Box called directly gives %s" % breal)
     return breal
@@ -449,17 +782,31 @@ def run(tier, seed, replay=None):
                 "out, depth 0-%d), built with the public constructor and with >>/@, called on random "
                 "integer tuples, box names unique / all '<lambda>' via disco / drawn from a few shared "
                 "names, functions also handed over as falsy callables or identity sub-diagrams; "
-                "Swap/Copy/Discard of all widths 0-%d; non-trivial = a successful "
+                "Swap/Copy/Discard of all widths 0-%d; histories: one diagram object (width <= 5, "
+                "depth 1-5, typed wire values int/float/bool/None/str/bytes/list/dict/set/frozenset, "
+                "boxes through 9 constructor routes, box objects reused, states, counters, fresh "
+                "lists) called 2-4 times on same / equal-but-distinguishable / new inputs with the "
+                "earlier result mutated in between; non-trivial = a successful "
                 "call of a diagram with >= 2 boxes; distinct by request line"
                 % ((8, 24, 6) if thorough else (6, 10, 4)))
-    rep.partial = []
+    rep.partial = [
+        "history stream: boxes that are impure (counters) or return a fresh list/dict have no model "
+        "counterpart (the model's boxes are functions of their arguments): compared with the oracle "
+        "interpreter only, counted under stream:history(oracle only)",
+        "pool arithmetic on -0.0, non-integer floats, strings, bytes, lists (2 * 'a', 0 * -3.0) is "
+        "outside the model's number tower: those calls are compared with the oracle only "
+        "(typed:arithmetic_outside_model)"]
     rep.assumptions = [
-        "wire values are non-tuple Python objects (ints in the harness); a box returning a tuple "
+        "wire values are non-tuple Python objects (ints in the random/structural streams; ints, "
+        "floats, bools, None, strings, bytes, lists, dicts, sets, frozensets in the history, function "
+        "and exotic streams — typed tokens `tok ty n` in the model); a box returning a tuple "
         "on one wire is re-split by tuplify: excluded by hypothesis, exhibited by an example in "
         "Props/C19.lean and by the `tuplewire` cases of this check",
         "the Python recursion limit is not modelled (three frames per layer)",
         "box functions come from a fixed pool implemented twice (Prim.sem in Lean, py_prim in the "
-        "harness); the theorems quantify over arbitrary functions"]
+        "harness); the theorems quantify over arbitrary functions",
+        "the model has no history: d.call is a function of the inputs; the check calls one object "
+        "repeatedly and compares every call with that function, comparing types and reprs, not =="]
     rep.lean = lean_obligations(PROP, thorough=thorough)
     rng = random.Random(seed)
     tag_generators()
@@ -733,6 +1080,98 @@ def run(tier, seed, replay=None):
                 b = check_call(rep, cases, rhs, args, "law:" + name, "clean", stream="natural")
                 if a != b:
                     rep.fail("law:" + name, where, "%s: lhs %s, rhs %s" % (name, a, b))
+        cases.flush(drv)
+
+        # ---- stream history: ONE diagram object called several times in a row.  The function a
+        # diagram draws has no memory: every call must give what the drawn function gives on THAT
+        # call's inputs (type-sensitively: 1, 1.0 and True are different inputs), whatever was
+        # computed before and whatever the caller did to earlier results.
+        from discopy.cartesian import Function
+        for k in range(1200 if thorough else 170):
+            r = random.Random(rng.getrandbits(64))
+            mode = ("numeric", "mixed", "mixed")[k % 3]
+            g = TGen(r, 5, 5, mode, rep)
+            dom = r.randint(0, 4)
+            layers, cod = g.layers(dom, r.randint(1, 5))
+            rep.count("history:mode_" + mode)
+            how = "public" if k % 2 == 0 else "ops"
+            try:
+                d = build_public(dom, cod, layers) if k % 2 == 0 else build_ops(r, dom, layers)
+            except Exception as exc:
+                rep.fail("history_build_raises", dict(layers=safe_repr(layers), built=how),
+                         "building a well-typed diagram raised %r" % (exc,))
+                continue
+            template = g.inputs(dom)
+            history, prev = [], []
+            for c in range(r.randint(2, 4)):
+                kind = "first" if c == 0 else r.choice(["same", "variant", "variant", "new"])
+                xs = g.inputs(dom) if kind == "new" else g.variant(template) if kind == "variant" \
+                    else fresh(template)
+                if prev and r.random() < 0.8 and mutate(prev[0]):
+                    rep.count("history:earlier_result_mutated_by_caller")
+                    history.append("caller mutated the result of the previous call")
+                rep.count("history:call_" + kind)
+                for x in xs:
+                    rep.count("value:" + type(x).__name__)
+                if any(isinstance(x, (list, dict, set)) for x in xs):
+                    rep.count("history:unhashable_input")
+                real = check_call(rep, cases, d, xs, "history:" + how, "typed", stream="history",
+                                  history=history, out=prev)
+                history.append("called on %s -> %s" % (show(tuple(xs)), real[:200]))
+            if k % 3 == 0:                       # a box of it called directly, three times
+                b = r.choice(layers)[0]
+                bt, bprev = g.inputs(len(b.dom)), []
+                bh = ["(inside its diagram) " + h for h in history]
+                for kind in ("first", "variant", "same"):
+                    bx = g.variant(bt) if kind == "variant" else fresh(bt)
+                    if bprev and mutate(bprev[0]):
+                        bh.append("caller mutated the result of the previous call")
+                    rep.count("history:box_call_" + kind)
+                    breal = check_box_alone(rep, cases, b, bx, history=bh, out=bprev)
+                    bh.append("called on %s -> %s" % (show(tuple(bx)), breal[:200]))
+            if k % 4 == 1:                       # the same boxes twice inside one diagram
+                args = g.variant(template)
+                for name, mk, vals in (
+                        ("f>>copy", lambda: d >> Copy(cod), args),
+                        ("copy>>f@f", lambda: Copy(dom) >> d @ d, args),
+                        ("f@f", lambda: d @ d, fresh(template) + g.variant(template)),
+                        ("f@f>>swap", lambda: d @ d >> Swap(cod, cod), g.variant(template) + args),
+                        ("f>>discard", lambda: d >> Discard(cod), args)):
+                    try:
+                        dd = mk()
+                    except Exception as exc:
+                        rep.fail("composition_raises:" + name, dict(diagram=safe_repr(d)),
+                                 "composing a diagram with Copy/Swap/Discard raised %r" % (exc,))
+                        continue
+                    rep.count("history:law_" + name)
+                    check_call(rep, cases, dd, fresh(vals), "history:" + name, "typed",
+                               stream="history", history=history + ["(now inside %s)" % name])
+        cases.flush(drv)
+
+        # ---- stream function: cartesian.Function objects composed directly with >> / @ /
+        # Function.id (what the functor does with the boxes), typed inputs, called twice
+        for k in range(500 if thorough else 70):
+            r = random.Random(rng.getrandbits(64))
+            g = TGen(r, 5, 5, ("numeric", "mixed")[k % 2], rep)
+            dom = r.randint(0, 4)
+            layers, cod = g.layers(dom, r.randint(0, 4))
+            bs, os_ = [b for b, _ in layers], [o for _, o in layers]
+            try:
+                F, width = Function.id(dom), dom
+                for b, off in layers:
+                    m, n = len(b.dom), len(b.cod)
+                    layer = Function.id(off) @ Function(m, n, b._c19given) @ Function.id(width - off - m)
+                    F, width = F >> layer, width - m + n
+            except Exception as exc:
+                rep.fail("function_build_raises", dict(layers=safe_repr(layers)),
+                         "composing Functions of matching arities raised %r" % (exc,))
+                continue
+            template, history = g.inputs(dom), []
+            for xs in (fresh(template), g.variant(template)):
+                real = check_callable(rep, cases, F, dom, cod, bs, os_, xs, "Function", "typed",
+                                      "function", "Function.id(%d) >> layers of %s" % (
+                                          dom, " ".join(str(tok_of(b)) for b in bs)), history)
+                history.append("called on %s -> %s" % (show(tuple(xs)), real[:200]))
         cases.flush(drv)
     finally:
         drv.close()
